@@ -1,39 +1,43 @@
 /-
 Model of `Settable` bookkeeping (`SettableData`, `set`, `follow`, `stop_following`, `update_following_data`),
-`GetterFromHistory`, `ConstantGetter` (`src/lib.rs`).  The inner `impl_set` of a settable and the followed getter
-are scripted: what they return is an argument of the step.
+`GetterFromHistory`, `ConstantGetter` (`src/lib.rs`).  The inner `impl_set` of a settable and the getters that can be
+followed are scripted: what they return is an argument of the step (`gs : Nat → Output T`, one output per getter).
 Clock arithmetic is plain `Int` (the property quantifies over clocks and offsets that do not overflow).
 -/
 import Rrtk.Core
 namespace Rrtk
 
-/-- `SettableData<S,E>` plus what the harness's recording settable remembers -/
+/-- `SettableData<S,E>` plus what the harness's recording settable remembers.
+`following` is the IDENTITY of the followed getter (`SettableData::following : Option<Reference<dyn Getter>>`):
+getters are numbered, `some i` = following getter number `i`, `none` = not following. -/
 structure SettableS (T : Type) where
   lastRequest : Option T
-  following : Bool
+  following : Option Nat
 
 namespace SettableS
 variable {T : Type}
-def init : SettableS T := ⟨none, false⟩
+def init : SettableS T := ⟨none, none⟩
 /-- `Settable::set(v)` when `impl_set` returns `acc`: the request is stored only after success.
 Result: new data, the value `impl_set` accepted (if any), return value. -/
 def set (s : SettableS T) (v : T) (acc : UpdRet) : SettableS T × Option T × UpdRet :=
   match acc with
   | .ok _ => ({ s with lastRequest := some v }, some v, .ok ())
   | .error e => (s, none, .error e)
-def follow (s : SettableS T) : SettableS T := { s with following := true }
-def stopFollowing (s : SettableS T) : SettableS T := { s with following := false }
-/-- `update_following_data` with the followed getter currently returning `g` -/
-def updateFollowingData (s : SettableS T) (g : Output T) (acc : UpdRet) : SettableS T × Option T × UpdRet :=
-  if s.following then
-    match g with
+/-- `follow(getter)`: `data.following = Some(getter)` — REPLACES whatever was followed before -/
+def follow (s : SettableS T) (g : Nat) : SettableS T := { s with following := some g }
+def stopFollowing (s : SettableS T) : SettableS T := { s with following := none }
+/-- `update_following_data` when getter number `i` currently returns `gs i`: only the followed getter is asked -/
+def updateFollowingData (s : SettableS T) (gs : Nat → Output T) (acc : UpdRet) : SettableS T × Option T × UpdRet :=
+  match s.following with
+  | some i =>
+    match gs i with
     | .error e => (s, none, .error e)
     | .ok none => (s, none, .ok ())
     | .ok (some d) => set s d.value acc
-  else (s, none, .ok ())
+  | none => (s, none, .ok ())
 /-- the harness's `Rec::update`: `update_following_data()?` then its own scripted result `iu` -/
-def recUpdate (s : SettableS T) (g : Output T) (acc iu : UpdRet) : SettableS T × Option T × UpdRet :=
-  let r := updateFollowingData s g acc
+def recUpdate (s : SettableS T) (gs : Nat → Output T) (acc iu : UpdRet) : SettableS T × Option T × UpdRet :=
+  let r := updateFollowingData s gs acc
   match r.2.2 with
   | .error e => (r.1, r.2.1, .error e)
   | .ok _ => (r.1, r.2.1, iu)
@@ -53,14 +57,15 @@ def get (s : ConstGetterS T) (clk : TimeOutput) : Output T :=
   | .ok t => .ok (some ⟨t, s.value⟩)
 /-- `set` (`impl_set` stores the value and always succeeds) -/
 def set (s : ConstGetterS T) (v : T) : ConstGetterS T := ⟨v, { s.sd with lastRequest := some v }⟩
-/-- `update` = `update_following_data` -/
-def update (s : ConstGetterS T) (g : Output T) : ConstGetterS T × UpdRet :=
-  if s.sd.following then
-    match g with
+/-- `update` = `update_following_data` (getter number `i` currently returns `gs i`) -/
+def update (s : ConstGetterS T) (gs : Nat → Output T) : ConstGetterS T × UpdRet :=
+  match s.sd.following with
+  | some i =>
+    match gs i with
     | .error e => (s, .error e)
     | .ok none => (s, .ok ())
     | .ok (some d) => (set s d.value, .ok ())
-  else (s, .ok ())
+  | none => (s, .ok ())
 end ConstGetterS
 
 /-! `GetterFromHistory`: only the offset is state -/
